@@ -71,6 +71,9 @@ pub fn check(c: &Case, stats: &mut Stats) -> CheckResult {
             stats.label(l);
         }
     }
+    if m.depth() > 33 {
+        stats.label("depth>33");
+    }
     if differ && labels.contains(&"diamond") && labels.contains(&"link-on-term-and-ancestor") {
         stats.label("nontrivial");
         let mut h = Fnv::new();
@@ -123,7 +126,20 @@ fn strategy(tier: Tier) -> BoxedStrategy<Case> {
             Case { base: OntCase { facts, path, noise }, keys, other_path }
         },
     );
-    prop_oneof![3 => free_s, 7 => std_s].boxed()
+    // deep graphs (more than 32 levels): order dependence of depth-limited or memoised walks
+    let deep = GenCfg::small().terms(36, 52).recs(3).shapes(&[1, 1, 4, 0]);
+    let deep_s = (gen::facts(deep), vec(any::<u16>(), 48)).prop_map(|(facts, keys)| Case {
+        base: OntCase { facts, path: PathSel::Builder, noise: JaxNoise::default() },
+        keys,
+        other_path: None,
+    });
+    let deep_std = GenCfg::small().terms(36, 52).recs(3).standard().with_flags(true).names(NameMode::Capped).shapes(&[1, 1, 4, 0]);
+    let deep_std_s = (gen::facts(deep_std), prop_oneof![Just(PathSel::Bin(3)), Just(PathSel::Jax), Just(PathSel::BuilderDefaults)], vec(any::<u16>(), 48)).prop_map(|(facts, path, keys)| Case {
+        base: OntCase { facts, path, noise: JaxNoise::default() },
+        keys,
+        other_path: None,
+    });
+    prop_oneof![9 => free_s, 21 => std_s, 1 => deep_s, 1 => deep_std_s].boxed()
 }
 
 impl Property for C16 {
@@ -143,7 +159,7 @@ impl Property for C16 {
         }
     }
     fn required_labels(&self, _tier: Tier) -> Vec<&'static str> {
-        vec!["nontrivial", "cross-path-comparison", "diamond", "link-on-term-and-ancestor"]
+        vec!["nontrivial", "cross-path-comparison", "diamond", "link-on-term-and-ancestor", "depth>33"]
     }
     fn run_generated(&self, tier: Tier, seed: u64, n: u64, stats: &mut Stats) -> Option<(Value, Failure)> {
         run_typed(strategy(tier), seed, n, stats, check)
